@@ -1,18 +1,51 @@
 (* C13 — static and dynamic definitions of a metamodel are interchangeable.
-   The kernel model (Model/Kernel.v) takes the metamodel as a VALUE: its
-   behaviour is a function of that description only.  Two renderings of one
-   description are interchangeable as soon as each of them corresponds to the
-   kernel run; that is the (deliberately simple) theorem below, and the
-   substance is the pair of correspondences established on every run of
-   harness/props/c13.py — dynamic rendering vs model, generated static module
-   (MetaEClass and @EMetaclass) vs the SAME model run — plus the direct
-   comparison of the traces, of the reflective descriptions and the
-   cross-loading of saved documents on the implementation.
-   PARTIAL by nature: the reflection performed by Core._promote on a class body
-   is modelled and proved in C20 (Model/Operations.v); everything else about
-   metaclass machinery is outside the model and carried by the correspondence. *)
+
+   FIRST HALF, "the same reflective description" (Model/StaticDecl.v,
+   Proofs/StaticDeclProofs.v): one abstract description (classes, abstract
+   flag, supertypes in order, ordered feature declarations with bounds,
+   ordered/unique/containment, opposite, default literal, operations; the data
+   types bound in the module) is (a) rendered as Python class statements in the
+   MetaEClass or the @EMetaclass style and executed -- class body evaluation
+   into a dict namespace, MetaEClass.__init__ / EMetaclass ->
+   register_classifier -> Core._promote statement by statement, @abstract, then
+   the module-level `C.f.eType = T` and `C.f.eOpposite = D.g` assignments --
+   and (b) built through the dynamic API (EClass(...), eSuperTypes.append,
+   eStructuralFeatures.append(EAttribute(...)), eOpposite, eOperations).
+   `C13_static_and_dynamic_descriptions_coincide`: for EVERY well-formed
+   description (boolean wf_descr: distinct class names, supertypes declared
+   earlier and distinct, feature/operation names distinct within a class, not
+   starting with two underscores and not one of the three names _promote itself
+   assigns, attribute types bound, reference types declared, opposites
+   declared symmetrically, required parameters first) both executions succeed
+   and the description read back from either (names, flags, supertypes in
+   order, features IN ORDER, opposite as (class, name), resolved default,
+   operations without the receiver) is exactly the canonical description.
+   Negative half, for ANY class body: `C13_class_takes_exactly` (the features of
+   the promoted class are the feature-valued namespace entries, in namespace
+   order, nothing else) and `C13_reserved_key_never_promoted`; methods: C20's
+   C20_reflection_exactly.  The two `_refuted` examples are the two known
+   findings (a feature called __x is reflected as _A__x by the static style; a
+   feature called eClass / dyn_inst / _staticEClass is silently dropped by it):
+   wf_descr excludes exactly those names.
+   Not modelled: Python's C3 acceptance of the bases (assumed), MRO walk of
+   `C.f` (own namespace only), aliasing of one feature object in two bodies,
+   data types and classes in one scope, method creation by eOperations.append
+   (C20); every run of harness/props/c13.py compares the model with the real
+   static module (both styles) and the real dynamic construction.
+
+   SECOND HALF, behaviour: the kernel model (Model/Kernel.v) takes the
+   metamodel as a VALUE; two renderings of one description are interchangeable
+   as soon as each of them corresponds to the kernel run; that is the
+   (deliberately simple) theorem `C13_two_renderings_of_one_description_agree`,
+   and the substance is the pair of correspondences established on every run of
+   harness/props/c13.py -- dynamic rendering vs model, generated static module
+   (MetaEClass and @EMetaclass) vs the SAME model run -- plus the direct
+   comparison of the traces and the cross-loading of saved documents on the
+   implementation.  PARTIAL in that half only. *)
 From Coq Require Import ZArith List Bool Arith.
+From Coq Require Import String.
 From PyecoreV Require Import Lib.PyBase Lib.PyList Model.Coll Model.Kernel Model.KernelIO.
+From PyecoreV Require Import Model.Operations Model.StaticDecl Proofs.StaticDeclProofs.
 Import ListNotations.
 
 (* an implementation, seen through the harness, maps a token-encoded case to a token-encoded trace *)
@@ -30,3 +63,83 @@ Theorem C13_kernel_is_a_function_of_the_description :
   forall t1 t2, t1 = t2 -> run_kernel t1 = run_kernel t2.
 Proof. intros t1 t2 ->. reflexivity. Qed.
 Print Assumptions C13_kernel_is_a_function_of_the_description.
+
+(* ---------- first half: the same reflective description ---------- *)
+
+(* both constructions succeed and give back exactly the description, in both static styles *)
+Theorem C13_static_and_dynamic_descriptions_coincide :
+  forall D deco, wf_descr D = true ->
+    exists ws wd, promote (render_static deco D) = Some ws /\ build_dynamic D = Some wd /\
+                  describe ws = canonical D /\ describe wd = canonical D.
+Proof. exact static_dynamic_canonical. Qed.
+Print Assumptions C13_static_and_dynamic_descriptions_coincide.
+
+Theorem C13_descriptions_equal :
+  forall D deco, wf_descr D = true ->
+    option_map describe (promote (render_static deco D)) = option_map describe (build_dynamic D)
+    /\ option_map describe (build_dynamic D) = Some (canonical D).
+Proof. exact static_dynamic_coincide. Qed.
+Print Assumptions C13_descriptions_equal.
+
+(* whatever the class body: the promoted class owns the feature-valued entries of its namespace, in
+   namespace order, and reflects the rest through Operations.promote_ns -- nothing else shows up *)
+Theorem C13_class_takes_exactly :
+  forall T c s s', exec_class T c s = Some s' ->
+    exists d row e, eval_body T (py_name c) (List.length (s_py s)) (py_body c) nil nil = Some (d, row) /\
+      w_ecl (s_world s') = w_ecl (s_world s) ++ (e :: nil) /\
+      e_feats e = feat_locs (overwrite_reserved d) /\
+      e_ops e = promote_ns (ns_members (overwrite_reserved d)).
+Proof. exact class_takes_exactly. Qed.
+Print Assumptions C13_class_takes_exactly.
+
+Theorem C13_reserved_key_never_promoted :
+  forall T cn i b d row k l,
+    eval_body T cn i b nil nil = Some (d, row) -> In (k, VFeat l) (overwrite_reserved d) -> ~ In k reserved.
+Proof. exact reserved_key_never_promoted. Qed.
+Print Assumptions C13_reserved_key_never_promoted.
+
+(* non-vacuity: a diamond under an abstract class, a containment with its opposite, a many-valued
+   attribute with a default, an attribute taking its type's default, operations *)
+Definition s13 := of_string.
+Definition exD : descr :=
+  mkD (mkT (s13 "EInt") (Some 7%Z) :: mkT (s13 "EString") None :: nil)
+      (mkC (s13 "A") true nil
+           (mkF (s13 "ns") false (s13 "EInt") 0 (-1) true false false None (Some 9%Z)
+            :: mkF (s13 "kids") true (s13 "B") 0 (-1) true true true (Some (s13 "B", s13 "parent")) None
+            :: mkF (s13 "count") false (s13 "EInt") 0 1 true true false None None :: nil)
+           ((s13 "scale", (s13 "k", true) :: (s13 "unit", false) :: nil) :: nil)
+       :: mkC (s13 "B") false nil
+              (mkF (s13 "parent") true (s13 "A") 0 1 true true false (Some (s13 "A", s13 "kids")) None :: nil) nil
+       :: mkC (s13 "L") false (s13 "A" :: nil) nil nil
+       :: mkC (s13 "R") false (s13 "A" :: nil)
+              (mkF (s13 "n") false (s13 "EInt") 1 1 true true false None None :: nil) nil
+       :: mkC (s13 "Both") false (s13 "L" :: s13 "R" :: nil) nil ((s13 "ping", nil) :: nil) :: nil).
+
+Example C13_description_nonvacuous :
+  wf_descr exD = true
+  /\ option_map describe (promote (render_static false exD)) = Some (canonical exD)
+  /\ option_map describe (promote (render_static true exD)) = Some (canonical exD)
+  /\ option_map describe (build_dynamic exD) = Some (canonical exD)
+  /\ List.length (canonical exD) = 5%nat
+  /\ option_map (fun c => map fd_default (cd_feats c)) (nth_error (canonical exD) 0)
+     = Some (Some 9%Z :: None :: Some 7%Z :: nil).
+Proof. vm_compute. repeat split; reflexivity. Qed.
+
+(* the two known findings: names wf_descr excludes, and why *)
+Definition one_attr (n : name) : descr :=
+  mkD (mkT (s13 "EString") None :: nil)
+      (mkC (s13 "A") false nil (mkF n false (s13 "EString") 0 1 true true false None None :: nil) nil :: nil).
+
+Example C13_private_feature_name_refuted :
+  option_map (map (fun c => map fd_name (cd_feats c))) (option_map describe (promote (render_static false (one_attr (s13 "__x")))))
+    = Some ((s13 "_A__x" :: nil) :: nil)
+  /\ option_map (map (fun c => map fd_name (cd_feats c))) (option_map describe (build_dynamic (one_attr (s13 "__x"))))
+    = Some ((s13 "__x" :: nil) :: nil).
+Proof. vm_compute. split; reflexivity. Qed.
+
+Example C13_reserved_feature_name_refuted :
+  option_map (map (fun c => map fd_name (cd_feats c))) (option_map describe (promote (render_static true (one_attr (s13 "eClass")))))
+    = Some (nil :: nil)
+  /\ option_map (map (fun c => map fd_name (cd_feats c))) (option_map describe (build_dynamic (one_attr (s13 "eClass"))))
+    = Some ((s13 "eClass" :: nil) :: nil).
+Proof. vm_compute. split; reflexivity. Qed.
